@@ -40,6 +40,15 @@ CLAIMED = {
             "battery-level identity it rests on is C01.",
             "Lean 4 proof (sum identity, losses) + exact/Float differential correspondence + trace oracle on real runs",
             "DESIGN.md §4 C06"),
+    "C09": ("For the two modelled strategies: balanced's plan is a constant power that reaches the desired SoC exactly at "
+            "the announced departure when every planned power is accepted (constant curve, admissible power), with the "
+            "remaining-steps count proved to be the ceiling of the remaining time; greedy offers min(needed, available) "
+            "clamped. These are Lean theorems on the strategy model. For all six listed strategies the guarantee itself is "
+            "decided on real runs: scenarios whose standing time is f x the full-power charging time (f = 1..2), SoC read at "
+            "the departure step from the run-time trace; greedy is compared with the full-power trajectory. Known "
+            "findings: balanced / distributed / balanced_market miss on curves that vary between SoC and desired SoC (F2).",
+            "Lean 4 proof (balanced recurrence, ceiling of remaining steps) on the strategy model + oracle on real runs of six strategies",
+            "DESIGN.md §4 C09"),
     "C15": ("All sentences are Lean theorems about the executable model of the three util.py functions on an integer "
             "datetime model: window membership <=> first season containing the date has a half-open (midnight-wrapping) "
             "window of the level; core standing time exact iff-characterisation with error branch, and equality with the "
